@@ -87,6 +87,7 @@ class Recorder:
         self.calls = []
         self.backend = backend
         self.enabled = True
+        self.req = None       # request id set by Marked callables (C03/C02/C05)
 
     def task(self):
         b = self.backend
@@ -95,12 +96,51 @@ class Recorder:
     def log(self, **kw):
         if self.enabled:
             kw['task'] = self.task()
+            kw['req'] = self.req
             kw['seq'] = len(self.calls)
             self.calls.append(kw)
 
 
 REC = Recorder()
 _REGISTRY = {}
+
+
+class Marked:
+    """Picklable wrapper that tags everything a task logs with the request it belongs to."""
+
+    _n = [0]
+
+    def __init__(self, fn, req):
+        Marked._n[0] += 1
+        self.key = 'marked/%d' % Marked._n[0]
+        self.fn = fn
+        self.req = req
+        _REGISTRY[self.key] = self
+
+    def __reduce__(self):
+        return (_lookup, (self.key,))
+
+    def __call__(self, *a, **k):
+        prev = REC.req
+        REC.req = self.req
+        try:
+            return self.fn(*a, **k)
+        finally:
+            REC.req = prev
+
+
+def mark_client(client, get_req):
+    """Wrap client.apply / apply_sync so that every task carries the current request id."""
+    inner_apply = client.apply
+    inner_sync = client.apply_sync
+
+    def apply(kallable, *args, **kwargs):
+        return inner_apply(Marked(kallable, get_req()), *args, **kwargs)
+
+    def apply_sync(kallable, *args, **kwargs):
+        return inner_sync(Marked(kallable, get_req()), *args, **kwargs)
+    client.apply = apply
+    client.apply_sync = apply_sync
 
 
 def _lookup(key):
